@@ -305,7 +305,14 @@ fn gen_ops(rng: &mut Rng, n: usize, count: usize, model_len: &mut usize) -> Vec<
             }),
             3 => BufOp::Clear,
             _ => {
-                let len = rng.below(n.min(16) + 1);
+                // up to the full capacity: short, within three of N, anywhere below ~1100, and around the
+                // powers of two at which an implementation might collect block-wise
+                let len = match rng.below(4) {
+                    0 => rng.below(n.min(16) + 1),
+                    1 => n - rng.below(n.min(3) + 1),
+                    2 => rng.below(n.min(1100) + 1),
+                    _ => (*rng.pick(&[7usize, 8, 9, 15, 16, 17, 31, 32, 33, 34, 63, 64, 65, 66, 127, 128, 129, 255, 256, 257])).min(n),
+                };
                 BufOp::FromIter(Hx(rng.bytes(len)))
             }
         };
@@ -341,7 +348,7 @@ impl Prop for C18Prop {
         }
     }
     fn rule(&self) -> &'static str {
-        "operation histories of 1-40 steps over {push, extend_from_slice (lengths free-1, free, free+1, 0, random), truncate (k < len, = len, > len, usize::MAX, multiples of 2^8 / 2^16 / 2^32 plus a small remainder), clear, from_iter (<= N items)} on two ArrayBuf<N> (N in 0,1,2,3,4,5,7,8,16,64,256,300,1024 and, rarely, 70000 with slices around 2^16) checked step by step against a capacity-bounded Vec model, with ==, {:?}, {:x?}, {:#?} and eleven further format specifications (precision, width, fill, sign, zero padding, upper-case hex) compared between the two buffers whenever their contents are equal (different histories leave different stale bytes behind the length); Vec<u8> as Buffer runs the same histories with the k-th allocation failing. Non-trivial = at least one operation hit the capacity limit or an allocation failure; distinct = scenario fingerprint"
+        "operation histories of 1-40 steps over {push, extend_from_slice (lengths free-1, free, free+1, 0, random), truncate (k < len, = len, > len, usize::MAX, multiples of 2^8 / 2^16 / 2^32 plus a small remainder), clear, from_iter (<= N items: short, within three of N, anywhere below 1100, around powers of two)} on two ArrayBuf<N> (N in 0,1,2,3,4,5,7,8,16,64,256,300,1024 and, rarely, 70000 with slices around 2^16) checked step by step against a capacity-bounded Vec model, with ==, {:?}, {:x?}, {:#?} and eleven further format specifications (precision, width, fill, sign, zero padding, upper-case hex) compared between the two buffers whenever their contents are equal (different histories leave different stale bytes behind the length); Vec<u8> as Buffer runs the same histories with the k-th allocation failing. Non-trivial = at least one operation hit the capacity limit or an allocation failure; distinct = scenario fingerprint"
     }
     fn assumptions(&self) -> Vec<&'static str> {
         vec!["from_iter is driven with at most N items (overflow panics by documented design, test_from_panic)"]
